@@ -122,6 +122,14 @@ class C19(E1Prop):
         cfg['robot_comment_events'] = True
         if rng.random() < 0.3:
             cfg['settings']['always_create_integration_branches'] = False
+        if rng.random() < 0.25:
+            # every gate open: integration branches are created, pushed and
+            # merged away within one single job
+            cfg['cmd_line_options'] = cfg['cmd_line_options'] + [
+                'bypass_build_status']
+            if rng.random() < 0.6:
+                cfg['use_queue'] = False
+                cfg['skip_queue'] = False
         return cfg
 
     def begin(self, w, rng):
